@@ -388,6 +388,82 @@ def check_final_decision(ctx, F):
         ctx.ok('R3', role, b.defpath, '%d accepting path(s), each controlled by accum, total and laps_or_zeros' % len(oks), key=key)
 
 
+FLOAT_LIKE = ('f32', 'f64', 'F', 'bool')
+
+
+def _arg_roots(t, b):
+    out = set()
+    for y in sym.subterms(t):
+        if isinstance(y, tuple) and y:
+            if y[0] == 'arg' and 1 <= y[1] <= b.arg_count:
+                out.add(y[1])
+            if y[0] == 'in' and isinstance(y[1][0], int) and 1 <= y[1][0] <= b.arg_count:
+                out.add(y[1][0])
+    return out
+
+
+def check_constructor_narrowing(ctx, F):
+    """An integer constructor argument that is narrowed must first be bounded from above (or round-trip
+    checked) on its un-narrowed value: otherwise a huge argument aliases a small, valid-looking one."""
+    import props.C09 as c09
+    W = c09.Wide(F)
+    adts = model_adts(F)
+    n = 0
+    for b in F.bodies:
+        if b.promoted is not None or b.derived or is_test(b) or b.dk not in ('Fn', 'AssocFn'):
+            continue
+        if not any(s['k'] == 'assign' and s['rv']['k'] == 'agg' and s['rv'].get('adt') in adts for bl in b.blocks if not bl['cleanup'] for s in bl['stmts']):
+            continue
+        ev, paths = rules.evaluate(b)
+        casts = {}
+        for r in paths or []:
+            for e in r.events:
+                if e['kind'] != 'literal' or e['adt'] not in adts:
+                    continue
+                preds = r.preds[:e['npreds']]
+                terms = list(e['vals']) + [t for t, v, _ in preds]
+                for t in terms:
+                    for x in sym.subterms(t):
+                        if not (isinstance(x, tuple) and x and x[0] == 'cast' and x[1] in ('as_', 'IntToInt') and len(x) > 4):
+                            continue
+                        if x[4] in FLOAT_LIKE or x[3] in FLOAT_LIKE:
+                            continue
+                        roots = _arg_roots(x[2], b)
+                        if not roots:
+                            continue
+                        # the inner cast of a round trip is judged through its outer comparison
+                        ok = True
+                        for root in roots:
+                            atom = ('arg', root)
+                            guarded = False
+                            for g, v, _ in preds:
+                                if isinstance(v, tuple):
+                                    continue
+                                if g[0] == 'bin' and g[1] in ('Lt', 'Le'):
+                                    small, large = (g[2], g[3]) if v == 1 else (g[3], g[2])
+                                    if W.depends(small, atom) == 'wide' and W.depends(large, atom) is None:
+                                        guarded = True
+                                if g[0] == 'bin' and g[1] == 'Eq' and v == 1:
+                                    for a, o in ((g[2], g[3]), (g[3], g[2])):
+                                        if a[0] == 'cast' and a[2][0] == 'cast' and a[2][2] == o and W.depends(o, atom) == 'wide':
+                                            guarded = True
+                            ok = ok and guarded
+                        k = sym.show(effects.strip_uid(x))[:100]
+                        casts[k] = casts.get(k, True) and ok
+        for k, ok in sorted(casts.items()):
+            n += 1
+            key = 'R3/ctor-narrowing/%s/%s' % (b.defpath, k)
+            role = 'a narrowed constructor argument is bounded (or round-trip checked) on its un-narrowed value first'
+            if ok:
+                ctx.ok('R3', role, b.defpath, '`%s` is dominated by an upper-bound / round-trip test of the wide value' % k, key=key)
+            else:
+                ctx.bad('R3', role, b.defpath, '`%s` narrows an argument that no dominating test bounds from above: an oversized argument wraps to a small, valid-looking value and a model over the wrong support is built' % k,
+                        key=key, loc=rules.loc(b))
+    ctx.extra['constructor_narrowings'] = n
+    if n < 3:
+        ctx.notes.append('fewer narrowing conversions of constructor arguments than on the reference tree (%d)' % n)
+
+
 def check_python_errors(ctx, F):
     """Thorough tier, pybindings configuration: constructor errors are mapped, never unwrapped."""
     n = 0
@@ -421,6 +497,7 @@ def run(ctx):
     check_sibling_agreement(ctx, F)
     check_two_point(ctx, F)
     check_final_decision(ctx, F)
+    check_constructor_narrowing(ctx, F)
     if ctx.tier == 'thorough':
         from vlib import witness
         witness.run(ctx, 'C19')
